@@ -41,6 +41,11 @@ MAPS = [
 EXTRA_MAPS = [
     [{"rule": "/d/", "endpoint": "d", "defaults": {"page": 1}}, {"rule": "/d/<int:page>", "endpoint": "d"}, "/e"],
     [{"rule": "/k/<x>", "endpoint": "k"}, {"rule": "/old/<x>", "endpoint": "k", "alias": True}, "/k"],
+    # a defaults rule that covers more arguments than its sibling has: no canonicalisation
+    [{"rule": "/x/", "endpoint": "x", "defaults": {"page": 1, "sort": "d"}}, {"rule": "/x/<int:page>", "endpoint": "x"}],
+    # a strict branch rule for one method next to a catch-all for another
+    [{"rule": "/it/", "endpoint": "items", "methods": ["GET"]}, {"rule": "/<name>", "endpoint": "create", "methods": ["POST"]},
+     {"rule": "/up/", "endpoint": "up-get", "methods": ["GET"]}],
 ]
 
 
